@@ -258,16 +258,16 @@ func vfEnd2End(letters0, letters1 []uint8, L int, gammas bool) {
 
 // H_C07_matrix_end2end: Model() + DistMatrix for the 7 models: symmetric, zero diagonal, identical rows at distance 0, entries equal the model's pair values or the common substitute.
 // bounds: 3 rows x 2 sites, row 0 symbolic over {A,C,-}, row 1 symbolic over {G,T,-} (transitions, transversions and gaps all occur), row 2 = row 0; 7 models, rm-gaps on/off, no gamma, no weights, cpus=1
-// outside: other residues (thorough twin: both rows over {A,G,C,N,-}, gamma alpha=2), weights, L>2, n>3; IEEE rounding is outside the claim: floats are exact reals
+// outside: other residues (thorough twin: both rows over {A,G,N,-}, gamma alpha=2), weights, L>2, n>3; IEEE rounding is outside the claim: floats are exact reals
 func H_C07_matrix_end2end() {
 	vfEnd2End([]uint8{'A', 'C', '-'}, []uint8{'G', 'T', '-'}, 2, false)
 }
 
 // H_C07_matrix_end2end_deep: as H_C07_matrix_end2end on more residues and with the gamma variants.
-// bounds: 3 rows x 2 sites over {A,G,C,N,-}, row 2 = row 0; 7 models, rm-gaps on/off, gamma off / alpha=2
+// bounds: 3 rows x 2 sites over {A,G,N,-}, row 2 = row 0; 7 models, rm-gaps on/off, gamma off / alpha=2
 // outside: IEEE rounding is outside the claim: floats are exact reals
 //verif: tier=thorough
 func H_C07_matrix_end2end_deep() {
-	l := []uint8{'A', 'G', 'C', 'N', '-'}
+	l := []uint8{'A', 'G', 'N', '-'}
 	vfEnd2End(l, l, 2, true)
 }
